@@ -284,6 +284,15 @@ impl Property for C10 {
                 ctx.class(kind);
             }
         }
+        // history: the safety table of the same robot object is replaced (public field) and the first posture asked about again
+        if !c.scene.rx160 {
+            let mut built = built;
+            built.robot.body.safety = c.alt.build();
+            let ea = expected(&c.scene, &built, &c.j, &c.alt);
+            let det = in_pool(4, || no_panic(|| built.robot.collision_details(&c.j))).map_err(|m| viol!("no panic", "collision_details: {}", m))?;
+            check_report("posture 1 collision_details after robot.body.safety was replaced by the alternative table", c.alt.mode % 3, &det, &ea, ctx)?;
+            ctx.class("history: safety table replaced between two calls");
+        }
         Ok(())
     }
 }
